@@ -105,6 +105,7 @@ func genC04(t *rapid.T, r *Rec) C04Case {
 	for i := 0; i < nv; i++ {
 		c.Vals[fmt.Sprintf("p%d", i)] = BStr(genText(t, 8) + rapid.SampledFrom([]string{"", "{{ x }}", "{% y %}", "<b>", "&"}).Draw(t, "valtail"))
 	}
+	nmac := 0
 	var gen func(d int) []*S
 	gen = func(d int) []*S {
 		n := rapid.IntRange(1, 6).Draw(t, "nsegs")
@@ -134,6 +135,21 @@ func genC04(t *rapid.T, r *Rec) C04Case {
 			case 9:
 				out = append(out, SetS("zz", Int(1)))
 			case 10:
+				if rapid.IntRange(0, 2).Draw(t, "macrowrap") == 0 {
+					// text, comments and verbatim bodies inside a macro body, called once with
+					// marker arguments named like the names verbatim bodies mention
+					var inner []*S
+					for _, s := range gen(0) {
+						if s.K == "text" || s.K == "comment" || s.K == "verbatim" {
+							inner = append(inner, s)
+						}
+					}
+					nmac++
+					name := fmt.Sprintf("mq%d", nmac)
+					out = append(out, &S{K: "macro", Name: name, Params: []Param{{Name: "v0"}, {Name: "v1"}}, Body: inner},
+						Print(&E{K: "mcall", S: name, M: "local", A: []*E{Str(c04Marker0), Str(c04Marker1)}}))
+					continue
+				}
 				out = append(out, &S{K: "if", Conds: []*E{Bool(true)}, Bodies: [][]*S{gen(d - 1)}})
 			default:
 				out = append(out, &S{K: "for", Name: "qq", E: List(Int(1), Int(2)), Body: gen(d - 1)})
@@ -161,7 +177,7 @@ func c04Normalise(segs []*S) ([]*S, int) {
 			cp.Bodies = [][]*S{b}
 			excl += n
 		}
-		if cp.K == "for" {
+		if cp.K == "for" || cp.K == "macro" {
 			b, n := c04Normalise(cp.Body)
 			cp.Body = b
 			excl += n
@@ -203,12 +219,25 @@ func breakDelims(t string) string {
 }
 
 func c04Expect(segs []*S, vals map[string]BStr, w *bytes.Buffer, exactVerbatim *bool) {
+	macros := map[string]*S{}
+	for _, s := range segs {
+		if s.K == "macro" {
+			macros[s.Name] = s
+		}
+	}
 	for _, s := range segs {
 		switch s.K {
+		case "macro":
+			// a definition produces no output
+			continue
 		case "text":
 			w.WriteString(string(s.T))
 		case "print":
-			if s.E.K == "var" {
+			if s.E.K == "mcall" {
+				if m := macros[s.E.S]; m != nil {
+					c04Expect(m.Body, vals, w, exactVerbatim)
+				}
+			} else if s.E.K == "var" {
 				w.WriteString(string(vals[s.E.S]))
 			} else {
 				w.WriteString(s.E.S)
@@ -239,7 +268,7 @@ func hasVerbatimTags(segs []*S) bool {
 			if hasVerbatimTags(s.Bodies[0]) {
 				return true
 			}
-		case "for":
+		case "for", "macro":
 			if hasVerbatimTags(s.Body) {
 				return true
 			}
@@ -262,7 +291,7 @@ func splitVerbatim(segs []*S) []*S {
 			}
 		case "if":
 			cp.Bodies = [][]*S{splitVerbatim(s.Bodies[0])}
-		case "for":
+		case "for", "macro":
 			cp.Body = splitVerbatim(s.Body)
 		}
 		out = append(out, &cp)
@@ -371,6 +400,9 @@ func c04NonTrivial(segs []*S) (bool, []string) {
 			case "if":
 				rec(s.Bodies[0])
 			case "for":
+				rec(s.Body)
+			case "macro":
+				cl = append(cl, "inside-macro-body")
 				rec(s.Body)
 			}
 			if i > 0 && s.K != "text" && b[i-1].K != "text" {
